@@ -36,7 +36,7 @@ def main():
             'thorough_cmd': './check %s --tier thorough' % pid,
             'evidence_file': '/verif/evidence/%s.json' % pid,
             'replay_cmd_template': './check %s --replay {path}' % pid,
-            'engine': '+'.join({'kani': 'K (Kani/CBMC)', 'mir': 'M (MIR->SMT, z3/cvc5)'}[e] for e in engines),
+            'engine': '+'.join({'kani': 'K (Kani/CBMC)', 'mir': 'M (MIR->SMT, z3/cvc5)', 'twin': 'T (native twin run of the DBM model, validation only)'}[e] for e in engines),
             'level_claimed': {
                 'category': spec.get('level', 'model_checking'),
                 'text': spec.get('level_text', 'Bounded symbolic model checking of the real code: every obligation is a solver '
